@@ -112,6 +112,8 @@ PartRecords(c, f) ==
 \*   pos  : per axis <<lo, hi>> (closed interval on the lattice) or <<>> for no predicate on that axis
 \*   val  : <<hydro variable index, threshold token, "gt"|"le">> or <<>>
 \*   cpus : explicit cpu list or <<>>
+\*   dxl  : <<lo, hi>> levels whose cell size the predicate on `dx` accepts, or <<>>. Unlike `lv` it is an ordinary
+\*          predicate on a cell quantity: it does not truncate the tree, it only filters the leaves
 \* (group / variable subsets and sortby are applied by the harness to the rows computed here: they are projections)
 Lmax(c, req) == IF req.lv = <<>> THEN c.levelmax ELSE (IF req.lv[2] < c.levelmax THEN req.lv[2] ELSE c.levelmax)
 IsLeaf(c, o, ind, lmax) == ~(Oct(c, o).son[ind] > 0 /\ Oct(c, o).level < lmax)
@@ -120,6 +122,7 @@ Qualifies(c, req, o, ind) ==
   /\ req.lv = <<>> \/ (Oct(c, o).level >= req.lv[1] /\ Oct(c, o).level <= req.lv[2] /\ (Len(req.lv) < 3 \/ Oct(c, o).level # req.lv[3]))
   /\ \A d \in 1..c.ndim : req.pos[d] = <<>> \/ (CellPos(c, o, ind - 1, d) >= req.pos[d][1] /\ CellPos(c, o, ind - 1, d) <= req.pos[d][2])
   /\ req.val = <<>> \/ (IF req.val[3] = "gt" THEN HydroTok(c, o, ind, req.val[1]) > req.val[2] ELSE HydroTok(c, o, ind, req.val[1]) <= req.val[2])
+  /\ req.dxl = <<>> \/ (Oct(c, o).level >= req.dxl[1] /\ Oct(c, o).level <= req.dxl[2])
 CpuSeq(c, req) == IF req.cpus = <<>> THEN [f \in 1..c.ncpu |-> f] ELSE req.cpus
 \* rows in loader order: files, levels, cells of an oct block (ind-major)
 Rows(c, req) ==
@@ -158,7 +161,7 @@ PreselectionKeepsNeeded(c) == c.hilbert3 => \A q \in 1..Len(c.reqs) : Needed(c, 
 \* ------------------------------------------------------------------ structural invariants of a configuration
 RECURSIVE SumVol(_, _)
 SumVol(c, rows) == IF rows = <<>> THEN 0 ELSE Pow2(c.ndim * (c.levelmax - Head(rows).level)) + SumVol(c, Tail(rows))
-NoReq == [lv |-> <<>>, pos |-> <<<<>>, <<>>, <<>>>>, val |-> <<>>, cpus |-> <<>>]
+NoReq == [lv |-> <<>>, pos |-> <<<<>>, <<>>, <<>>>>, val |-> <<>>, cpus |-> <<>>, dxl |-> <<>>]
 LvReq(l) == [NoReq EXCEPT !.lv = <<1, l>>]
 \* the leaves of the tree truncated at any level tile the box exactly once
 Tiling(c) == \A l \in 1..c.levelmax : SumVol(c, Rows(c, LvReq(l))) = Pow2(c.ndim * c.levelmax)
